@@ -548,6 +548,9 @@ func (e *Env) index(base, idx *Val) *Val {
 // the bound variable, A is a natural E-matching trigger (the guard is what the
 // prover has in hand when it needs the fact).
 func (e *Env) guardTrigger(ne *Env, body ast.Expr, bv string) string {
+	if e.fx.ct == nil || !e.fx.ct.GuardTriggers {
+		return "" // opt-in per contract file: guards as triggers help deep invariants and hurt some flat ones
+	}
 	c, ok := body.(*ast.CallExpr)
 	if !ok || len(c.Args) != 2 {
 		return ""
@@ -713,7 +716,16 @@ func (e *Env) call(x *ast.CallExpr) *Val {
 		if e.old == nil {
 			return e.errorf("unchanged() needs a pre-state")
 		}
-		return &Val{T: fx.unchangedTerm(e.st, e.old), Ty: boolT}
+		var except []string
+		for i := range x.Args {
+			a := argv(i)
+			t := a.T
+			if t == "" {
+				t, _ = fx.ptrTerm(e.st, a)
+			}
+			except = append(except, t)
+		}
+		return &Val{T: fx.unchangedTerm(e.st, e.old, except...), Ty: boolT}
 	case "allstr", "exstr":
 		id := x.Args[0].(*ast.Ident)
 		fx.qn++
@@ -1062,7 +1074,7 @@ func (e *Env) errcode(v *Val) *Val {
 
 // unchangedTerm: every non-ghost heap component has, at every reference that
 // was allocated in the pre-state, the value it had in the pre-state.
-func (fx *FuncCtx) unchangedTerm(now, pre *State) string {
+func (fx *FuncCtx) unchangedTerm(now, pre *State, except ...string) string {
 	if now.Base != pre.Base {
 		return "false"
 	}
@@ -1089,7 +1101,11 @@ func (fx *FuncCtx) unchangedTerm(now, pre *State) string {
 		case "":
 			cs = append(cs, "(= "+t+" "+was+")")
 		case "Int":
-			cs = append(cs, "(forall ((x!u Int)) (=> (and (< 0 x!u) (<= x!u "+pre.Alloc+")) (= (select "+t+" x!u) (select "+was+" x!u))))")
+			conds := []string{"(< 0 x!u)", "(<= x!u " + pre.Alloc + ")"}
+			for _, ex := range except {
+				conds = append(conds, "(not (= x!u "+ex+"))")
+			}
+			cs = append(cs, "(forall ((x!u Int)) (=> "+and(conds...)+" (= (select "+t+" x!u) (select "+was+" x!u))))")
 		default:
 			cs = append(cs, "(= "+t+" "+was+")")
 		}
